@@ -29,7 +29,9 @@ fn c02_case(ctx: &Ctx, case: u64, acc: &mut Acc) -> Verdict {
     let n = r.range(2, nmax) as usize;
     let codec = *r.pick(&[CodecKind::Hand, CodecKind::Hand, CodecKind::HandDirty, CodecKind::Postcard, CodecKind::BincodeStd, CodecKind::BincodeLegacy]);
     let (hl, ml) = max_lens(codec);
-    let p = *r.pick(&[R * 22 / 10, R * 3, R * 5]);
+    // (probe_rtt < probe_period is all the statement asks: with 1.1 x rtt there is no time for an indirect probe to
+    // rescue a missed direct Ack before the next round)
+    let p = *r.pick(&[R * 11 / 10, R * 22 / 10, R * 3, R * 5]);
     let size_class = r.below(3);
     let mps = match size_class {
         0 => hl + 2 + ml, // header + one member
@@ -193,6 +195,115 @@ fn c02_long(ctx: &Ctx, case: u64, acc: &mut Acc) -> Verdict {
     acc.max("longest_run_in_probe_periods", periods);
     acc.nontrivial(fp(&("long", n, periods, format!("{cfg:?}"))));
     acc.sample(|| json!({"workload": "long", "n": n, "periods": periods, "calls": sim.calls}));
+    Ok(())
+}
+
+/// Packets *just* large enough to feed the whole cluster (fixed-length identity encodings, so that "large enough"
+/// is exact): every Feed must then list every active member other than the receiver, every joiner knows everybody
+/// after one round trip, and the full view follows within the bound. One byte less is covered by the
+/// zero-false-suspicion clause of the main workload.
+fn c02_feedfit(ctx: &Ctx, case: u64, acc: &mut Acc) -> Verdict {
+    let mut r = Rng64::derive(ctx.seed, 0xC02E, case);
+    let nmax = if ctx.tier == Tier::Quick { 16 } else { 40 };
+    let n = r.range(3, nmax) as usize;
+    let codec = *r.pick(&crate::codecs::ALL_CODECS);
+    // addresses that are multiples of 3 carry no padding: every identity, hence every header of one kind and
+    // every member, has the same encoded length
+    let addr = |i: usize| (3 * i) as u16;
+    let hl = wire::encode_header(codec, &Header { src: Id::new(addr(0), 0), src_incarnation: 0, dst: Id::new(addr(n - 1), 0), message: Message::Feed }).len();
+    let ml = wire::encode_member(codec, &Member::new(Id::new(addr(1), 0), 0, State::Alive)).len();
+    if (hl + 2) / 2 > ml {
+        // foca sizes its Feed sample from the header length; outside this premise "as many as fit" is not promised
+        acc.inconclusive += 1;
+        acc.tally("feedfit_premise_not_met", 1);
+        return Ok(());
+    }
+    let slack = *r.pick(&[0usize, 0, 1, ml - 1]);
+    let mps = hl + 2 + ml * (n - 2) + slack;
+    let p = *r.pick(&[R * 22 / 10, R * 3]);
+    let cfg = Cfg {
+        p,
+        r: R,
+        k: r.range(1, 3) as usize,
+        tx: r.range(1, 3) as u8,
+        s2d: p * 3,
+        rda: 86_400_000_000,
+        mps,
+        notify_down: false,
+        pa: if r.chance(1, 4) { Some((5 * p, 1)) } else { None },
+        pad: None,
+        pg: None,
+    };
+    let mut sim = Sim::new(r.next(), codec, (1, R / 4));
+    for a in 0..n {
+        sim.add(addr(a), cfg.clone(), Renew::None, HdlCfg::disabled(), None);
+    }
+    let mut feeds = 0u64;
+    let mut fed = 0u64;
+    let mut safety = |s: &Sim, i: usize, rec: &CallRec| -> Result<(), V> {
+        let who = s.nodes[i].node.id();
+        if let Res::Err(e) = &rec.res {
+            return Err(V::new("C02/error-returned", format!("{who:?}: {} returned {e:?} in a fault-free run at t={}us", rec.op.name(), s.now)));
+        }
+        for n in rec.notes() {
+            ensure!(!matches!(n, N::MemberDown(_) | N::Idle | N::Defunct | N::Rejoin(_)), "C02/bad-notification", "{who:?} notified {n:?} in a fault-free run");
+        }
+        for m in &rec.post.state {
+            ensure!(m.state() == State::Alive, "C02/false-suspicion", "{who:?} records live member {m:?} at t={}us", s.now);
+        }
+        for (to, d) in rec.sends() {
+            let Ok(pd) = wire::parse(s.codec, d) else { continue };
+            if pd.header.message != Message::Feed {
+                continue;
+            }
+            let listed: std::collections::BTreeSet<Id> = pd.members.unwrap_or_default().iter().map(|m| *m.id()).collect();
+            let cands: std::collections::BTreeSet<Id> = rec.post.active.iter().copied().filter(|x| x != to).collect();
+            let need = pd.header_len + 2 + ml * cands.len();
+            if need <= rec.cfg_pre.mps {
+                ensure!(
+                    listed == cands,
+                    "C02/feed-omits-members",
+                    "{who:?} answered {to:?} with a Feed of {} members although all {} active members fit ({need} bytes needed, max_packet_size {}); missing {:?}",
+                    listed.len(),
+                    cands.len(),
+                    rec.cfg_pre.mps,
+                    cands.difference(&listed).collect::<Vec<_>>()
+                );
+                fed += cands.len() as u64;
+            }
+            feeds += 1;
+        }
+        Ok(())
+    };
+    let last = form(&mut sim, n, Join::SeqToFirst, 2 * p, acc, &mut safety)?;
+    sim.run_until(last + R, acc, &mut safety)?;
+    // whoever's Announce reached the seed first is in the other's Feed
+    for i in 0..n {
+        for j in (i + 1)..n {
+            ensure!(sim.lists(i, j) || sim.lists(j, i), "C02/feed-omits-members", "n={n}: members {i} and {j} do not know each other in either direction after joining although the packet size feeds the whole cluster");
+        }
+    }
+    let bound = 4 * n as u64 + 4;
+    let mut full_done = None;
+    for k in 0..=bound {
+        sim.run_until(last + R + k * p, acc, &mut safety)?;
+        if sim.full_view() {
+            full_done = Some(k);
+            break;
+        }
+    }
+    ensure!(full_done.is_some(), "C02/discovery-too-slow", "n={n}: no full view after {bound} probe periods with packets that feed the whole cluster");
+    let t_end = sim.now + 2 * p;
+    sim.run_until(t_end, acc, &mut safety)?;
+    let _ = &mut safety;
+    sim.tally_into(acc);
+    acc.tally("feedfit_runs", 1);
+    acc.tally("feeds_checked_for_completeness", feeds);
+    acc.tally("members_fed", fed);
+    acc.max("feedfit_largest_cluster", n as u64);
+    acc.max("feedfit_periods_to_full_view", full_done.unwrap());
+    acc.nontrivial(fp(&("feedfit", n, codec, slack, format!("{cfg:?}"))));
+    acc.sample(|| json!({"workload": "feedfit", "n": n, "codec": format!("{codec:?}"), "max_packet_size": mps, "feed_header_len": hl, "member_len": ml, "feeds": feeds}));
     Ok(())
 }
 
@@ -905,8 +1016,9 @@ pub fn c02() -> Check {
         assumptions: &["transport delivers every datagram with latency < probe_rtt/4 and the runtime fires timers exactly at their deadline (the simulator does)", "discovery bound 4n+4 periods instantiates the statement's 'linear in the cluster size'"],
         required: &["fault_free_runs", "runs_with_complete_relation", "sim_datagram/Ping", "sim_datagram/Feed"],
         workloads: vec![
-            Workload { name: "faultfree", f: c02_case, quick: 2_500, thorough: 120_000, flav: Flav::Checked },
+            Workload { name: "faultfree", f: c02_case, quick: 10_000, thorough: 200_000, flav: Flav::Checked },
             Workload { name: "long", f: c02_long, quick: 160, thorough: 8_000, flav: Flav::Checked },
+            Workload { name: "feedfit", f: c02_feedfit, quick: 1_200, thorough: 40_000, flav: Flav::Checked },
         ],
         exhaustive: false,
     }
